@@ -38,19 +38,24 @@ PostOK == /\ E.err = ""
           /\ E.dur >= ppow' /\ E.dur <= E.nrec
 
 Im == [kind |-> E.kind, n |-> E.n, tail |-> E.tail, flip |-> E.flip]
+\* power-loss floor: the promise in the normal mode; in optimized mode the contiguous
+\* prefix covered by the fdatasyncs the implementation actually issued (wal sync hook)
+PF == IF opt THEN E.dur ELSE ppow
 
 SeqSet(s) == {s[j] : j \in 1..Len(s)}
 
-ImageOK ==
-  /\ mode \in {"append", "closed"}
-  /\ ~E.panic
-  /\ E.n <= Len(recs)
-  /\ ResultAllowed(recs, segs, Im, pproc, ppow, E.snap, E.res)
-  /\ SucceedsIfRepairable(recs, segs, Im, E.snap, E.res)
-  /\ NothingInvented(recs, E.snap, E.res)
-  /\ (E.res.err = "" => E.res2 = E.res)
-  /\ E.valid.err # "" \/ \E p \in Allowed(recs, Im, pproc, ppow) : SeqSet(E.valid.snaps) = ValidSnaps(Pre(recs, p))
-  /\ E.verify # "" \/ \E p \in Allowed(recs, Im, pproc, ppow) : E.snap \in Markers(Pre(recs, p))
+C1 == mode \in {"append", "closed"} /\ ~E.panic /\ E.n <= Len(recs)
+C2 == ResultAllowed(recs, segs, Im, pproc, PF, E.snap, E.res)
+C3 == SucceedsIfRepairable(recs, segs, Im, E.snap, E.res)
+C4 == NothingInvented(recs, E.snap, E.res)
+C5 == E.res.err = "" => E.res2 = E.res
+C6 == E.valid.err # "" \/ \E p \in Allowed(recs, Im, pproc, PF) : SeqSet(E.valid.snaps) = ValidSnaps(Pre(recs, p))
+C7 == E.verify # "" \/ \E p \in Allowed(recs, Im, pproc, PF) : E.snap \in Markers(Pre(recs, p))
+ImageOK == C1 /\ C2 /\ C3 /\ C4 /\ C5 /\ C6 /\ C7
+\* which conjuncts failed, as a bit mask: 1 panic-or-count, 2 durable-prefix, 4 repairable,
+\* 8 invented, 16 second-reopen, 32 valid-snapshots, 64 verify
+Why == (IF C1 THEN 0 ELSE 1) + (IF C2 THEN 0 ELSE 2) + (IF C3 THEN 0 ELSE 4) + (IF C4 THEN 0 ELSE 8)
+       + (IF C5 THEN 0 ELSE 16) + (IF C6 THEN 0 ELSE 32) + (IF C7 THEN 0 ELSE 64)
 
 Mismatch(exp) == /\ bad' = TRUE
                  /\ PrintT(<<"MISMATCH", l, exp>>)
@@ -65,13 +70,18 @@ TNext ==
      ELSE IF bad THEN UNCHANGED <<wvars, bad>>
      ELSE CASE E.ev = "create"  -> Step(Create(E.opt, E.meta) /\ PostOK, <<"create", 3>>)
             [] E.ev = "save"    -> Step(Save(E.hs, E.ents, E.cut) /\ PostOK,
-                                        <<"save: promised proc/power", pproc, ppow, Len(recs)>>)
+                                        <<"save", pproc, ppow, Len(recs)>>)
             [] E.ev = "snap"    -> Step(SaveSnapshot([i |-> E.i, t |-> E.t]) /\ PostOK, <<"snap", Len(recs) + 1>>)
             [] E.ev = "release" -> Step(ReleaseLockTo(E.i) /\ E.err = "", <<"release">>)
             [] E.ev = "close"   -> Step(Close /\ PostOK, <<"close", Len(recs)>>)
-            [] E.ev = "restart" -> Step(Restart /\ E.err = "", <<"restart">>)
+            [] E.ev = "restart" -> IF E.err = "" THEN Step(Restart, <<"restart">>)
+                                   \* a clean restart may only fail where reading the whole log at that
+                                   \* snapshot is an error by the model too (the history ends there)
+                                   ELSE IF mode = "closed" /\ ReadFrom(recs, segs, Len(recs), E.snap).err # ""
+                                        THEN UNCHANGED <<wvars, bad>>
+                                        ELSE Mismatch(<<"restart">>)
             [] E.ev = "image"   -> IF ImageOK THEN UNCHANGED <<wvars, bad>>
-                                   ELSE Mismatch(<<"image: floor, records", Floor(Im, pproc, ppow), Len(recs)>>)
+                                   ELSE Mismatch(<<"image", Floor(Im, pproc, PF), Len(recs), Why>>)
             [] OTHER            -> Mismatch(<<"no such action">>)
 
 TSpec == TInit /\ [][TNext]_tvars
